@@ -4,5 +4,5 @@ P=$1; PATCH=$2; shift 2
 D=$(mktemp -d /tmp/mutsrc.XXXXXX)
 git -C /repo archive HEAD | tar -x -C $D
 PATCH=$(readlink -f $PATCH); (cd $D && patch -p1 -s < $PATCH) || { echo "patch failed"; rm -rf $D; exit 2; }
-VERIF_SRC=$D /verif/bin/check $P "$@" 2>&1 | grep "VIOLATION\|SUMMARY\|KNOWN\|error" | cut -c1-330
+VERIF_SRC=$D /verif/bin/check $P "$@" 2>&1 | grep "VIOLATION\|SUMMARY\|KNOWN\|error\|build failed\|Traceback" | cut -c1-330
 rm -rf $D
